@@ -467,6 +467,9 @@ def run(ctx):
     r02d(ctx)
     # a getter answers from the wrapper index: a wrapper filed under a position instead of its item index is the wrong cell for the next reader (shared with C02)
     r02i(ctx)
+    # a row copy that was cleared must read as empty: clear() has to drop the cell map with the cells (shared with C02)
+    from .c02 import r02j
+    r02j(ctx)
     # a getter that resolves a coordinate per row returns cells of other columns, stamped with other coordinates (rule shared with C19)
     from .c19 import r19g
     r19g(ctx)
